@@ -363,12 +363,13 @@ def run_dial_check(pid, tier, groups, assumptions=(), level="model_checking", ru
         raise core.Infra("trace count mismatch: %d programs, %d traces" % (len(conc), res["traces"]))
     violations = []
     seen_base = set()
+    unreproduced = []
     for rj in res["rejections"]:
         tid = rj["tid"]
         if isinstance(rj["event"], dict) and rj["event"].get("e") == "SETUPFAIL":
             raise core.Infra("driver set-up failed for %s: %s" % (tid, rj["event"].get("v")))
         base = tid.split("/")[0]
-        if base in seen_base or len(violations) >= 4:
+        if base in seen_base or len(violations) >= 4 or len(unreproduced) >= 6:
             continue
         seen_base.add(base)
         prog = byid.get(base)
@@ -376,17 +377,27 @@ def run_dial_check(pid, tier, groups, assumptions=(), level="model_checking", ru
             raise core.Infra("rejected trace without program: %r" % tid)
         single = single_run_of(prog, tid)
         rname = name + "-repro"
-        core.rundir(rname)
-        f2 = core.drive(fam, [single], rname, shards=1)
-        r2 = core.validate(tmod, tcfg, f2, rname)
+        r2 = None
+        # runs with a planned stall depend on the clock (the short deadline may strike before the stalled operation is
+        # reached on a loaded machine, and such a run is admitted): give the reproduction three attempts
+        for attempt in range(3 if "timeout" in tid else 1):
+            core.rundir(rname)
+            f2 = core.drive(fam, [single], rname, shards=1)
+            r2 = core.validate(tmod, tcfg, f2, rname)
+            if r2["rejections"]:
+                break
         if not r2["rejections"]:
-            raise core.Infra("rejection of %s did not reproduce" % tid)
+            unreproduced.append(tid)
+            seen_base.discard(base)
+            continue
         rj2 = r2["rejections"][0]
         ev = rj2["event"]
         brief = {k: ev[k] for k in ev if k not in ("d",)} if isinstance(ev, dict) else ev
         path = core.save_replay(pid, fam, single, rj2["trace"],
                                 "event %d not explained by WSDial: %s" % (rj2["index"], json.dumps(brief)[:900]))
         violations.append(path)
+    if unreproduced and not violations:
+        raise core.Infra("rejection of %s did not reproduce" % ", ".join(unreproduced[:3]))
     samples = [dict(program={k: conc[i][k] for k in conc[i] if k not in ("id", "cfgabs")}) for i in
                sorted({0, len(conc) // 2, len(conc) - 1})]
     for s in samples:
